@@ -286,7 +286,7 @@ func runOffsetAPI(srv *lrsrv.Srv, drv *vh.Driver, h hist, sec *vh.Section, only 
 	}
 	// a HELD cursor (same request id) sent back to a corner position: whether the server re-positions the held cursor
 	// or builds a new one, `head` must read the whole forward result again and `tail` with offset -k its last k events
-	if only == nil && n >= 3 {
+	if (only == nil || only.Kind == "held-corner") && n >= 3 {
 		res.Dist(sec, "held-corner")
 		func() {
 			_, nx1, err, hung := qr.query(api.QueryRequest{Query: q, Pos: "head", Limit: 2, WaitTimeout: 1})
@@ -317,6 +317,52 @@ func runOffsetAPI(srv *lrsrv.Srv, drv *vh.Driver, h hist, sec *vh.Section, only 
 				fail("held-cursor-corner-position", "a request that names a held cursor and asks for position tail with offset -k does not read the last k events of the forward result", probe{Kind: "held-corner", Start: n, K: -k}, fmt.Sprint(got, err), fmt.Sprint(lbls(sliceFrom(fwd, n-k))))
 			}
 		}()
+	}
+	// the offset of a request is applied ONCE: `head +k` with a small limit, then the server's NextQueryRequest sent back
+	// VERBATIM page after page (what api.Select and the shell do) must read fwd[k:] — on the RPC path and through
+	// backend.Querier (regenerated fact continuationOffsetZero, theorem continuation_request_offset_zero)
+	if (only == nil || only.Kind == "offset-continuation") && n >= 3 {
+		paths := []*qrunner{{srv: srv, rpc: false}}
+		if srv.Client != nil {
+			paths = append(paths, &qrunner{srv: srv, rpc: true})
+		}
+		for _, pq := range paths {
+			for _, k := range []int{1, n / 2} {
+				res.Dist(sec, fmt.Sprintf("offset-continuation rpc=%v", pq.rpc))
+				pr := probe{Kind: "offset-continuation", Start: 0, K: k}
+				req := api.QueryRequest{Query: q, Pos: "head", Offset: k, Limit: 2}
+				var got []int
+				bad := false
+				for page := 0; page < n+3; page++ {
+					evs, nx, err, hung := pq.query(req)
+					if hung || err != nil {
+						fail("hang", "a page of a followed offset request failed", pr, fmt.Sprint(err, hung), "a page")
+						bad = true
+						break
+					}
+					if nx.Offset != 0 {
+						fail("continuation-carries-offset", fmt.Sprintf("the NextQueryRequest of a request with Offset %d carries Offset %d (rpc=%v): a client that follows it verbatim skips events again on every page", k, nx.Offset, pq.rpc), pr, fmt.Sprintf("page %d: NextQueryRequest.Offset=%d", page, nx.Offset), "NextQueryRequest.Offset=0")
+						bad = true
+						break
+					}
+					got = append(got, evs...)
+					if len(evs) == 0 {
+						break
+					}
+					req = nx
+				}
+				cursor.VerifDropIdle(srv.Cursors)
+				if !bad {
+					res.Eval(sec, fmt.Sprintf("offset-continuation %v %d %d", pq.rpc, k, n))
+					if !cmp(got, sliceFrom(fwd, k)) {
+						fail("offset-wrong-slice", fmt.Sprintf("head +%d followed through NextQueryRequest (rpc=%v) does not read the forward result from event %d on", k, pq.rpc, k), pr, fmt.Sprint(got), fmt.Sprint(lbls(sliceFrom(fwd, k))))
+					}
+				}
+			}
+		}
+	}
+	if only != nil && (only.Kind == "held-corner" || only.Kind == "offset-continuation") {
+		return // a recorded probe of these kinds is the whole block above
 	}
 	// positions after i events, taken from pages of the forward read
 	posAfter := map[int]string{0: "head", n: "tail"}
